@@ -35,11 +35,18 @@ from vlib.gate import Gate  # noqa: E402
 class StubNetwork:
     def __init__(self):
         self.fail = False
+        self.hang = False
 
     async def broadcast(self, raw):
         if self.fail:
             raise RuntimeError("broadcast rejected (stub)")
+        if self.hang:
+            await asyncio.Event().wait()        # the server never answers; the caller gives up (cancellation / wait_for)
         return "ok"
+
+
+class SignFault(Exception):
+    """injected: the signing step of a build fails (locked wallet, missing key)"""
 
 
 @st.composite
@@ -62,7 +69,9 @@ def case_strategy(draw, tier):
     def build():
         kind = draw(st.sampled_from(["pay"] * 6 + ["fund_amount", "fund_everything"]))
         return {"kind": kind, "amount": base * draw(st.integers(1, 4)) // draw(st.sampled_from([1, 2, 1])),
-                "funding": draw(st.sampled_from([[0], [0], [0, 1], [1]])), "nouts": draw(st.integers(1, 2))}
+                "funding": draw(st.sampled_from([[0], [0], [0, 1], [1]])), "nouts": draw(st.integers(1, 2)),
+                # the build fails in its last step, after it has selected and reserved its inputs
+                "sign_fault": draw(st.integers(0, 5)) == 0}
     nb = draw(st.integers(2, 12))
     wave1 = [build() for _ in range(nb)]
     wave2 = [build() for _ in range(draw(st.integers(0, 3)))]
@@ -75,7 +84,7 @@ def case_strategy(draw, tier):
         "sticky": draw(st.booleans()),
         "choices_seed": draw(st.sampled_from([None, draw(st.integers(0, 2 ** 32))])),
         "choices2": draw(st.lists(st.integers(0, 3), max_size=60)),
-        "resolve": draw(st.lists(st.sampled_from(["accept", "accept", "release", "fail"]), min_size=12, max_size=12)),
+        "resolve": draw(st.lists(st.sampled_from(["accept", "accept", "release", "fail", "cancel", "timeout"]), min_size=12, max_size=12)),
         "resolve_order": draw(st.permutations(list(range(12)))),
     }
 
@@ -104,6 +113,15 @@ async def wave(env, specs, choices, out, label, sticky=False):
     dbo = env.ledger.db.db
     orig = dbo.run
     dbo.run = gate.wrap(orig)
+    Transaction = lbry()[-3]
+    orig_sign = Transaction.sign
+    faulty = {i for i, spec in enumerate(specs) if spec.get("sign_fault")}
+
+    async def sign(self, *a, **k):
+        if gate.task_of.get(asyncio.current_task()) in faulty:
+            raise SignFault()
+        return await orig_sign(self, *a, **k)
+    Transaction.sign = sign
     tasks = []
     try:
         for i, spec in enumerate(specs):
@@ -113,6 +131,7 @@ async def wave(env, specs, choices, out, label, sticky=False):
         await gate.drive(tasks)
     finally:
         dbo.run = orig
+        Transaction.sign = orig_sign
     results = []
     for i, t in enumerate(tasks):
         try:
@@ -120,6 +139,9 @@ async def wave(env, specs, choices, out, label, sticky=False):
         except InsufficientFundsError:
             results.append(None)
             out.label(label + ":insufficient")
+        except SignFault:
+            results.append(None)
+            out.label(label + ":sign-fault:" + specs[i]["kind"])
         except AssertionError as e:  # Account.fund asserts; not part of this property
             results.append(None)
         except Exception as e:
@@ -228,6 +250,27 @@ async def run_async(case, out):
                 pass
             ledger.network.fail = False
             del still_held[k]
+        elif how in ("cancel", "timeout"):
+            # the broadcast never completes and the caller gives up: the transaction was not broadcast, so it is abandoned
+            ledger.network.hang = True
+            try:
+                if how == "timeout":
+                    try:
+                        await asyncio.wait_for(ledger.broadcast_or_release(tx), 0.01)
+                    except asyncio.TimeoutError:
+                        pass
+                else:
+                    t = asyncio.ensure_future(ledger.broadcast_or_release(tx))
+                    for _ in range(5):
+                        await asyncio.sleep(0)
+                    t.cancel()
+                    try:
+                        await t
+                    except asyncio.CancelledError:
+                        pass
+            finally:
+                ledger.network.hang = False
+            del still_held[k]
         else:
             await ledger.broadcast_or_release(tx)
         out.label("resolve:" + how)
@@ -273,6 +316,6 @@ def run_case(case):
 
 PARTS = [
     Part("concurrent_builds", lambda tier: case_strategy(tier), run_case, 250, 2500, quick_shards=8, thorough_shards=16,
-         essential=("w1_built:2", "resolve:accept", "resolve:release", "resolve:fail", "wave2", "switches:>=10", "resync_while_held",
+         essential=("w1_built:2", "resolve:accept", "resolve:release", "resolve:fail", "resolve:cancel", "resolve:timeout", "wave2", "switches:>=10", "resync_while_held",
                     "utxos:small_change")),
 ]
